@@ -123,7 +123,11 @@ class ApiScenario(Scenario):
             final["started"] = started
             if self.probe_consistency and started and not any(c["op"] == "stop" for c in run.hist["calls"]):
                 final["consistency"] = self.final_consistency(run, sim)
-            run.do_op("A0", ["stop"])
+            stopped_already = any(c["op"] == "stop" and c.get("ret") is not None and not c.get("exc") for c in run.hist["calls"])
+            if not (case.get("no_final_stop") and stopped_already):
+                # (with no_final_stop the program's own stop() is the last one: whatever was scheduled or started after it
+                # must not be left running either)
+                run.do_op("A0", ["stop"])
             if started:
                 j = run.do_op("A0", ["join"])
                 final["join_exc"] = j.get("exc")
@@ -215,6 +219,7 @@ class C06(ApiScenario):
             return gen_real_case(seed)
         case = super().gen_case(seed, tier, idx)
         rng = random.Random(f"{seed}:c06")
+        case["no_final_stop"] = rng.random() < 0.5
         if rng.random() < 0.3:
             case["actors"][0].append(["stop"])  # stop() more than once
         if rng.random() < 0.2 and len(case["actors"]) > 1:
